@@ -203,15 +203,56 @@ class Simplifier(pysmt.walkers.DagWalker):
         sl = args[0]
         sr = args[1]
 
-        if sl.is_constant() and sr.is_constant() and \
-           not sl.is_array_value() and not sr.is_array_value():
-            l = sl.constant_value()
-            r = sr.constant_value()
-            return self.manager.Bool(l == r)
-        elif sl == sr:
+        if sl.is_constant() and sr.is_constant():
+            eq = self._constants_equal(sl, sr)
+            if eq is not None:
+                return self.manager.Bool(eq)
+        if sl == sr:
             return self.manager.TRUE()
         else:
             return self.manager.Equals(sl, sr)
+
+    def _constants_equal(self, left: FNode, right: FNode) -> Optional[bool]:
+        """Decides whether two constants of the same type are equal.
+
+        Array values are compared extensionally. Returns None if the
+        equality cannot be decided.
+        """
+        if left is right:
+            return True
+        if not left.is_array_value() and not right.is_array_value():
+            return left.constant_value() == right.constant_value()
+        if not left.is_array_value() or not right.is_array_value():
+            return None
+        idx_type = left.array_value_index_type()
+        if idx_type.is_bv_type():
+            idx_domain_size: Optional[int] = 2**cast(types._BVType, idx_type).width
+        elif idx_type.is_bool_type():
+            idx_domain_size = 2
+        elif idx_type.is_int_type() or idx_type.is_real_type() or \
+             idx_type.is_string_type():
+            idx_domain_size = None # Infinite
+        else:
+            return None
+        keys = set(left.array_value_assigned_values_map())
+        keys.update(right.array_value_assigned_values_map())
+        unknown = False
+        for k in keys:
+            eq = self._constants_equal(left.array_value_get(k),
+                                       right.array_value_get(k))
+            if eq is None:
+                unknown = True
+            elif not eq:
+                return False
+        if idx_domain_size is None or len(keys) < idx_domain_size:
+            # The default value matters for the indexes that are not assigned
+            eq = self._constants_equal(left.array_value_default(),
+                                       right.array_value_default())
+            if eq is None:
+                unknown = True
+            elif not eq:
+                return False
+        return None if unknown else True
 
     def walk_ite(self, formula: FNode, args: List[FNode], **kwargs) -> FNode:
         assert len(args) == 3
